@@ -152,6 +152,35 @@ def cursor(ctx):
         eqs = [c for c in b.calls if c.f in ("core::cmp::PartialEq::eq",) and "CrsqlSeq" in c.self_ty]
         R.require(bool(eqs), "last-seq-break", b.where(), "reaching last_seq ends the chunk (compare with self.last_seq)")
 
+    # every change appears in some changeset: the final yield (which latches done and abandons the row source) is entered only
+    # when the source is exhausted (iter.next() == None / peek().is_none()) or the change just pushed carries last_seq
+    if it and len(dw) == 1:
+        itn = it[0]
+        allowed, why = [], []
+        for sw, m, other in flow.variant_edges(b, itn.dest):
+            allowed.append((sw, m.get(0, other)))
+            why.append("iter.next()==None")
+        for c in b.calls:
+            if c.name() == "is_none" and "Option<&" in c.self_ty:
+                src = flow.origins(b, op_place(c.args[0]), at=(c.bb, "T"), stop=lambda cc: cc.name() == "peek")
+                if any(o.kind == "call" and o.call.name() == "peek" and "Peekable" in o.call.self_ty for o in src):
+                    te, fe = flow.true_false_targets(b, c)
+                    allowed += te
+                    why.append("peek().is_none()")
+        for c in b.calls:
+            if c.f == "core::cmp::PartialEq::eq" and "CrsqlSeq" in c.self_ty:
+                n0, _, _ = _field_of_self(b, op_place(c.args[0]), (c.bb, "T"))
+                n1, _, _ = _field_of_self(b, op_place(c.args[1]), (c.bb, "T"))
+                if {frozenset(n0), frozenset(n1)} == {frozenset({"last_pushed_seq"}), frozenset({"last_seq"})}:
+                    te, fe = flow.true_false_targets(b, c)
+                    allowed += te
+                    why.append("last_pushed_seq==last_seq")
+        leak = dw[0][1] in b.reachable(itn.bb, no_edges=allowed)
+        R.require(bool(allowed) and not leak, "final-only-when-exhausted", b.where(dw[0][1]),
+                  "the final yield is entered only through: %s" % ", ".join(sorted(set(why))),
+                  fail_msg="the final yield (done = true) can be entered while the row source may still hold changes: some path from self.iter.next() to `self.done = true` "
+                           "avoids every exhaustion test (%s); the remaining rows would appear in no changeset although the final range covers their seqs" % ", ".join(sorted(set(why))))
+
 
 def _only_via_loop(b, wb, final_bb, step_bb):
     # from the write, the final yield is reachable only by first returning (step yield); since step returns, plain reachability from wb to final must be empty
